@@ -540,7 +540,11 @@ theorem reachable_pos_aligned (hc : CfgOK cfg) {g : GState} (h : Reachable cfg g
       minimum alignment in force is still `n` and the position is a multiple of `n`; in every intermediate state it
       is a multiple of the alignment in force there (`reachable_pos_aligned`);
     * after `aligned` returns the minimum alignment is the OUTER one again, the position is a multiple of it, and
-      the open regions and marks are those of `g`. -/
+      the open regions and marks are those of `g`.
+    (Statement unchanged by the repair of finding C18-e.  What the repair changes: when a LOWERING region ends,
+    `BumpAlignGuard::drop` now also re-aligns the chunk the region STARTED in if that is no longer the current one,
+    so the position of that one chunk — not the current one — may move towards the free side by less than the
+    outer minimum alignment at `alignedExit`: `aligned_lower_realigns_start_chunk` below.) -/
 theorem aligned_region_positions (hc : CfgOK cfg) {g g1 g2 g3 : GState} (h : Reachable cfg g) {n : Nat}
     {o1 o3 : Out} {q1 q3 : List BaseReq} {w : List (Op × List BaseResp)}
     (h1 : step cfg g (.alignedEnter n) [] = .ok (g1, o1, q1))
@@ -565,7 +569,7 @@ theorem aligned_region_positions (hc : CfgOK cfg) {g g1 g2 g3 : GState} (h : Rea
   simp only [List.cons.injEq] at xf'
   obtain ⟨rfl, hfr3⟩ := xf'
   have houter : outer = g.s.minAlign := by
-    rcases hf with rfl | rfl <;> rcases hf' with hh | hh <;> cases hh <;> rfl
+    rcases hf with rfl | rfl <;> rcases hf' with ⟨_, hh⟩ | hh <;> cases hh <;> rfl
   have e2 : g2.s.minAlign = n := hma2.trans hma1
   have e3 : g3.s.minAlign = g.s.minAlign := xma.trans houter
   refine ⟨⟨hn, hma1, fun i hi => ?_⟩, ⟨e2, fun i hi => ?_⟩,
@@ -576,6 +580,45 @@ theorem aligned_region_positions (hc : CfgOK cfg) {g g1 g2 g3 : GState} (h : Rea
     rw [e2] at this; exact this
   · have := (reachable_pos_aligned hc hreach3).2 i hi
     rw [e3] at this; exact this
+
+/-- THE REPAIR OF FINDING C18-e (by-value copy + `aligned::<lower>` + chunk switch), OVER ALL HISTORIES.  From any
+    reachable state `g` whose current chunk is `j`: enter a LOWERING `aligned::<n>` (`n < MIN_ALIGN`), run ANY finite
+    covered history `w` that ends with the same open regions (it may allocate with alignment 1 in chunk `j`, outgrow
+    it and move on to other chunks, reset back, …), leave the region.  Then chunk `j` — the chunk a scope still
+    points at when the region ran on a `by_value()` copy of it, whose current chunk is never written back — has a
+    bump position that is a multiple of the OUTER minimum alignment again, whether or not it is still the current
+    chunk (before the repair this held for the current chunk only, and the next typed allocation of the original
+    scope came out misaligned).  `Above` is not needed. -/
+theorem aligned_lower_realigns_start_chunk (hc : CfgOK cfg) {g g1 g2 g3 : GState} (h : Reachable cfg g) {n : Nat}
+    (hlt : n < g.s.minAlign) {o1 o3 : Out} {q1 q3 : List BaseReq} {w : List (Op × List BaseResp)}
+    (h1 : step cfg g (.alignedEnter n) [] = .ok (g1, o1, q1))
+    (hcov : AllCovered w) (henv : RunEnvOK cfg g1 w) (hrun : runOps cfg g1 w = .ok g2)
+    (hbal : g2.s.frames = g1.s.frames)
+    (h3 : step cfg g2 .alignedExit [] = .ok (g3, o3, q3)) {j : Nat} (hj : g.s.cur = .chunk j) :
+    ∃ c, g3.s.chunks[j]? = some c ∧ g.s.minAlign ∣ c.pos ∧ g3.s.minAlign = g.s.minAlign := by
+  have hreach1 : Reachable cfg g1 := h.snoc (op := .alignedEnter n) rfl (envOK_nil g) h1
+  have hreach2 : Reachable cfg g2 := hreach1.append hcov henv hrun
+  have hi2 := (hreach2.inv hc).install []
+  have e1 := alignedEnter_lower_form (g := install g []) hlt (step_ok h1).1
+  have hf1 : g1.s.frames = .alignedLower g.s.minAlign (.chunk j) :: g.s.frames := by rw [e1, ← hj]; rfl
+  have hf2 : (install g2 []).s.frames = .alignedLower g.s.minAlign (.chunk j) :: g.s.frames := hbal.trans hf1
+  obtain ⟨s1, s', ha, hb, e3⟩ := alignedExit_lower_form hf2 (step_ok h3).1
+  have hfr := hi2.frames
+  rw [hf2] at hfr
+  simp only [FramesOK] at hfr
+  obtain ⟨ho, ⟨c2, hc2⟩, _⟩ := hfr
+  obtain ⟨G1, G2, sh, _, _⟩ := C10.alignGuardDrop_inv hc hi2.geom ho ha
+  obtain ⟨c1, hc1, _, _⟩ := ChunksCov.of_shape sh j c2 hc2
+  have hal : s1.cur = .chunk j → g.s.minAlign ∣ c1.pos := by
+    intro hcur
+    obtain ⟨c, hcj, hd⟩ := G2.cur j hcur
+    have : s1.chunks[j]? = some c := hcj
+    rw [hc1] at this; cases this
+    exact hd
+  obtain ⟨c', h1', h2', _⟩ := C18.alignChunkAt_position hc G1 ho hc1 hal hb
+  refine ⟨c', ?_, h2', ?_⟩
+  · rw [e3]; exact h1'
+  · rw [e3]
 
 /-- `scoped_aligned::<N>`: at entry the position is a multiple of `n`; after it returns the position is EXACTLY the
     entry position (and everything else is restored: `C03.scopedAligned_restores`) -/
@@ -621,6 +664,16 @@ example : ∃ g1 g2 g3 o1 o3 q1 q3, step exCfg exG3 (.alignedEnter 1) [] = .ok (
     step exCfg g2 .alignedExit [] = .ok (g3, o3, q3) :=
   ⟨_, _, _, _, _, _, _, rfl, exInner_covered, runEnvCheck_sound _ _ (by rfl), rfl,
     aboveCheck_sound _ _ (by rfl), rfl, rfl⟩
+
+set_option maxRecDepth 1000000 in
+/-- hypotheses of `aligned_lower_realigns_start_chunk`: `aligned::<1>` around the example history, entered while
+    chunk 0 is current (outer minimum alignment 8) -/
+example : ∃ g1 g2 g3 o1 o3 q1 q3, Reachable exCfg exG3 ∧ 1 < exG3.s.minAlign ∧
+    step exCfg exG3 (.alignedEnter 1) [] = .ok (g1, o1, q1) ∧
+    AllCovered exInner ∧ RunEnvOK exCfg g1 exInner ∧ runOps exCfg g1 exInner = .ok g2 ∧
+    g2.s.frames = g1.s.frames ∧ step exCfg g2 .alignedExit [] = .ok (g3, o3, q3) ∧ exG3.s.cur = .chunk 0 :=
+  ⟨_, _, _, _, _, _, _, exReach3', of_decide_eq_true (by rfl), rfl, exInner_covered, runEnvCheck_sound _ _ (by rfl), rfl,
+    rfl, rfl, rfl⟩
 
 set_option maxRecDepth 1000000 in
 /-- hypotheses of `scopedAligned_positions` (lowering to 1 this time) -/
